@@ -37,6 +37,34 @@ func badType(t *rapid.T, rule string, p *model.Package, env *model.Env) *model.T
 		return model.Ref(p.Namespace, "NoSuchType")
 	case "unknown-namespace":
 		return model.Ref("Nowhere", "Thing")
+	case "unimported-namespace":
+		// a type of a package that is part of the same build (the main package or another of its
+		// imports) but that p does not import, directly or indirectly: unknown to p
+		reach := map[*model.Package]bool{p: true}
+		var walk func(q *model.Package)
+		walk = func(q *model.Package) {
+			for _, im := range q.Imports {
+				if !reach[im] {
+					reach[im] = true
+					walk(im)
+				}
+			}
+		}
+		walk(p)
+		if env.Root == nil {
+			return nil
+		}
+		for _, q := range env.Root.AllPackages() {
+			if reach[q] {
+				continue
+			}
+			for _, d := range q.Defs {
+				if d.Kind != model.DProtocol && len(d.TypeParams) == 0 {
+					return model.Ref(q.Namespace, d.Name)
+				}
+			}
+		}
+		return nil
 	case "generic-arity-extra":
 		// a non-generic definition given arguments, or too many arguments
 		for _, d := range p.Defs {
@@ -171,7 +199,7 @@ func wrapType(t *rapid.T, bad *model.Type, p *model.Package, isStream bool) (*mo
 	return cur, how
 }
 
-var typeRules = []string{"unknown-type", "unknown-namespace", "generic-arity-extra", "generic-arity-missing", "union-null-not-first", "union-single-null",
+var typeRules = []string{"unknown-type", "unknown-namespace", "unimported-namespace", "generic-arity-extra", "generic-arity-missing", "union-null-not-first", "union-single-null",
 	"union-duplicate-case", "union-nested", "union-duplicate-tag", "union-bad-tag", "union-untaggable", "map-key-vector", "map-key-optional",
 	"map-key-named-record", "map-key-named-enum", "map-key-alias-of-vector", "array-mixed-dims", "array-duplicate-dim", "array-bad-dim-name", "stream-nested"}
 
